@@ -119,31 +119,31 @@ Print Assumptions C12_vector_nonvacuous.
 (* the converse (pointwise values exist => the broadcasting evaluation succeeds) is NOT claimed: numpy evaluates every
    Piecewise branch on the whole array, so shapes/errors of unselected branches matter (finding piecewise-eager) *)
 
-(* ---- value types: exact-rational mode (ModelT.v) ----------------------------------------------------------------- *)
+(* ---- value types: exact-rational mode and numeric mode (ModelT.v; the mode is the field `tex` of the scope) ------ *)
 (* the typed evaluation computes exactly the value of `eval` (types are a refinement, they never change the value) *)
 Theorem C12_typed_erasure : forall e r, rfst (evalT r e) = eval (erase r) e.
 Proof. exact evalT_erase. Qed.
 Print Assumptions C12_typed_erasure.
 
 (* the static type over-approximation is sound *)
-Theorem C12_typed_poss : forall e r s sv v t, env_in r s sv -> evalT r e = Ok (v, t) -> In t (poss s sv e).
+Theorem C12_typed_poss : forall e r s sv v t, env_in r s sv -> evalT r e = Ok (v, t) -> In t (poss (tex r) s sv e).
 Proof. exact evalT_poss. Qed.
 Print Assumptions C12_typed_poss.
 
 (* exact mode under the executable guard: the result is the exact rational value of the formula, of an exact type *)
-Theorem C12_exact_mode : forall e r s sv v t, env_in r s sv -> exact_guard s sv e = true ->
+Theorem C12_exact_mode : forall e r s sv v t, tex r = true -> env_in r s sv -> exact_guard s sv e = true ->
   evalT r e = Ok (v, t) -> t <> TFloat /\ eval (erase r) e = Ok v.
 Proof. exact exact_mode_guarded. Qed.
 Print Assumptions C12_exact_mode.
 
 (* the unguarded statement ("exact inputs give an exact result"), kept type-checked: FALSE for Python arithmetic *)
 Definition C12_exact_mode_unguarded_statement : Prop :=
-  forall e r v t, exact_inputs_env r -> evalT r e = Ok (v, t) -> t <> TFloat.
+  forall e r v t, tex r = true -> exact_inputs_env r -> evalT r e = Ok (v, t) -> t <> TFloat.
 
 (* refutation (finding exact-int-div): a / b with the ints a = 1, b = 3 is the float 1/3 *)
 Theorem C12_exact_mode_refuted :
-  exact_inputs_env idiv_r /\ exists v, evalT idiv_r idiv_e = Ok (v, TFloat) /\ v == 1 # 3.
-Proof. exact exact_int_div_witness. Qed.
+  tex idiv_r = true /\ exact_inputs_env idiv_r /\ exists v, evalT idiv_r idiv_e = Ok (v, TFloat) /\ v == 1 # 3.
+Proof. split; [reflexivity | exact exact_int_div_witness]. Qed.
 Print Assumptions C12_exact_mode_refuted.
 
 Theorem C12_exact_guard_excludes_witness : exact_guard idiv_s idiv_s idiv_e = false.
@@ -155,3 +155,31 @@ Theorem C12_exact_guard_nonvacuous :
   exists v, evalT exact_r exact_e = Ok (v, TTime) /\ v == 13 # 6.
 Proof. exact exact_guard_nonvacuous. Qed.
 Print Assumptions C12_exact_guard_nonvacuous.
+
+(* ---- round 3: Piecewise = numpy.select, the two printers, float literals ------------------------------------------ *)
+(* numpy.select(conds, choices, default=nan) promotes to float64 (an object array as soon as a TimeType is among the
+   choices): the model makes no exactness claim for a Piecewise -- its type is TFloat, which is why exact_guard rejects
+   every formula whose result can come out of a Piecewise (TimeType branches: finding timetype-piecewise) *)
+Theorem C12_select_float : forall r c a b v t, evalT r (Ite c a b) = Ok (v, t) -> t = TFloat.
+Proof. exact evalT_ite_float. Qed.
+Print Assumptions C12_select_float.
+
+(* the printer (exact: Rational -> TimeType; numeric: Rational -> p/q) never changes the value, only the type *)
+Theorem C12_mode_value : forall e r ex, rfst (evalT (with_mode ex r) e) = rfst (evalT r e).
+Proof. exact evalT_mode_value. Qed.
+Print Assumptions C12_mode_value.
+
+Theorem C12_mode_example :
+  (exists v, evalT (num_r true) num_e = Ok (v, TTime) /\ v == (-3) # 2) /\
+  (exists v, evalT (num_r false) num_e = Ok (v, TFloat) /\ v == (-3) # 2) /\
+  (exists v, evalT (num_r true) (Bin BMul (Const (1 # 2)) (Var 0%N)) = Ok (v, TTime) /\ v == 3 # 2) /\
+  (exists v, evalT (num_r false) (Bin BMul (Const (1 # 2)) (Var 0%N)) = Ok (v, TFloat) /\ v == 3 # 2).
+Proof. exact mode_example. Qed.
+Print Assumptions C12_mode_example.
+
+(* decimal float literals: the correspondence binds a literal q to a reserved variable x of type float; the typed
+   evaluation in that scope has the value of the formula with the literal in place (or both have none) *)
+Theorem C12_literal_as_input : forall e r x q t,
+  rsim (eval (erase r) (subst (consts [(x, q)]) e)) (rfst (evalT (set_tsc r x (q, t)) e)).
+Proof. exact literal_as_input. Qed.
+Print Assumptions C12_literal_as_input.
